@@ -61,9 +61,9 @@ def pools(clsname):
     }
     if clsname != "Cosmology":
         P.update({
-            "sigma_8": [0.8, 0.9, 0.8159, 0.05, 11.0],
-            "n": [0.96, 1.0, 0.9667, -4.0, 5],
-            "z": [0.0, 0.5, 1, 2.0, -1.0, "abc", 6.5],
+            "sigma_8": [0.8, 0.9, 0.8159, 0.05, 11.0, 0.8000001],
+            "n": [0.96, 1.0, 0.9667, -4.0, 5, 0.9600001],
+            "z": [0.0, 0.5, 1, 2.0, -1.0, "abc", 6.5, 0.5000001, 1e-9],
             "lnk_min": [-12.0, -16.0, -18.0, -10.0, -5.0, 20.0],
             "lnk_max": [10.0, 8.0, 9.5, 12.0, 3.0],
             "dlnk": [0.25, 0.1, 0.5, 30.0],
@@ -83,7 +83,7 @@ def pools(clsname):
             "hmf_params": [{}, {"A": 0.2}, {"a": 0.8}, {"zzz": 1}, {"delta_virs": np.array([200.0, 300.0, 400.0, 600.0, 800.0, 1200.0, 1600.0, 2400.0, 3200.0])}],
             "mdef_model": [None, "SOMean", "SOCritical", "FOF", "SOVirial", "none"],
             "mdef_params": [{}, {"overdensity": 300}, {"linking_length": 0.25}, {"overdensity": 500}],
-            "delta_c": [1.686, 1.5, 2, 0.0, 11, "x"],
+            "delta_c": [1.686, 1.5, 2, 0.0, 11, "x", 1.6860001],
             "filter_model": [filters.TopHat, "Gaussian", "SharpK", "TopHat", "Nope"],
             "filter_params": [{}, {"c": 2.0}],
             "disable_mass_conversion": [True, False],
@@ -91,7 +91,7 @@ def pools(clsname):
     if "WDM" in clsname:
         from hmf.alternatives import wdm
         P.update({
-            "wdm_mass": [3.0, 1.0, 10.0, 0.5],
+            "wdm_mass": [3.0, 1.0, 10.0, 0.5, 3.0000003],
             "wdm_model": [wdm.Viel05, "Viel05", "Bode01" if hasattr(wdm, "Bode01") else "Viel05", "Nah"],
             "wdm_params": [{}, {"mu": 1.2}, {"g_x": 2.0}, {"mu": 1.12, "g_x": 1.5}, {"nonsense": 1.0}],
         })
@@ -237,6 +237,7 @@ def run_history(h, check_every=True, qsubset=None, r=None, stop_on_first=True):
             if op[0] in ("clone", "deepcopy", "pickle"):
                 other = obj
             try:
+                applied = {}
                 if op[0] == "read":
                     for q in op[1]:
                         rec = read(obj, q)
@@ -247,8 +248,10 @@ def run_history(h, check_every=True, qsubset=None, r=None, stop_on_first=True):
                                 viol.append({"at": i, "kind": "bookkeeping-error", "quantity": q, "exc": rec[1:]})
                 elif op[0] == "update":
                     obj.update(**{k: copy.deepcopy(P[k][j]) for k, j in op[1].items()})
+                    applied = {k: P[k][j] for k, j in op[1].items()}
                 elif op[0] == "set":
                     setattr(obj, op[1], copy.deepcopy(P[op[1]][op[2]]))
+                    applied = {op[1]: P[op[1]][op[2]]}
                 elif op[0] == "setv":
                     obj._validate_every_param_set = True
                     try:
@@ -263,9 +266,16 @@ def run_history(h, check_every=True, qsubset=None, r=None, stop_on_first=True):
                     obj = pickle.loads(pickle.dumps(obj))
             except Exception as e:
                 stats["rejected"] += 1
+                applied = {}
                 rec = ("exc", type(e).__name__, str(e)[:80])
                 if is_internal(rec):
                     viol.append({"at": i, "kind": "bookkeeping-error", "op": op, "exc": rec[1:]})
+            # parameters are the last applied: an accepted numeric value must be what the object now reports (however close to the old one)
+            for k_, v_ in applied.items():
+                if isinstance(v_, (int, float)) and not isinstance(v_, bool):
+                    pv_ = obj.parameter_values.get(k_)
+                    if not (isinstance(pv_, (int, float, np.integer, np.floating)) and float(pv_) == float(v_)):
+                        viol.append({"at": i, "kind": "accepted-value-not-applied", "parameter": k_, "requested": repr(v_), "reported": repr(pv_)})
             if viol and stop_on_first:
                 break
             # oracle
